@@ -432,9 +432,6 @@ class Dendrogram(object):
         return [i for i in self._structures_dict.values() if i.is_leaf]
 
     def to_newick(self):
-        # this caches newicks, and prevents too much recursion
-        [s.newick for s in reversed(list(self.all_structures))]
-
         return "(%s);" % ','.join([structure.newick for structure
                                    in self.trunk])
 
